@@ -4,7 +4,9 @@ import os, shutil
 from . import common as K
 
 FIXTURE_FILES = [("other", "example-linux"), ("other/ls-linux", "ls"), ("linux64-ci", "firefox"), ("macos-ci", "libmozglue.dylib"),
-                 ("win64-ci", "softokn3.dll"), ("win64-ci", "WriteArgument.exe"), ("android32-local", "libsoftokn3.so")]
+                 ("win64-ci", "softokn3.dll"), ("win64-ci", "WriteArgument.exe"), ("android32-local", "libsoftokn3.so"),
+                 # split DWARF whose .dwo files the helper does not offer (location_for_dwo = None): the skeleton unit's line table is all there is
+                 ("other/simple-example/out/with-dwo", "main")]
 
 SPECIAL_FILES = ["hg:hg.mozilla.org/mozilla-central:widget/cocoa/nsAppShell.mm:997f00815e6bc28806b75448c8829f0259d2cb28",
                  "git:github.com/rust-lang/rust:library/std/src/rt.rs:c8dfcfe046a7680554bf4eb612bad840e7631c4b",
@@ -17,7 +19,37 @@ SPECIAL_FILES = ["hg:hg.mozilla.org/mozilla-central:widget/cocoa/nsAppShell.mm:9
 GEN_MODULES = [("genmod1.so", "AAAA0000BBBB1111CCCC2222DDDD33330"), ("genmod2", "0123456789ABCDEF0123456789ABCDEF1"),
                ("genmod3.so", "0F0E0D0C0B0A090807060504030201002"),
                # legal breakpad ids that are not 33 characters long: an age above 0xf (34 and 35 characters) and the PDB 2.0 form (8-digit timestamp + age)
+               # genmod8 comes with a STALE .symindex: the index of an earlier build with the same record layout whose functions lay 0x10 lower
+               ("genmod8.so", "FEDCBA9876543210FEDCBA98765432100"),
                ("genmod4.so", "AAAA0000BBBB1111CCCC2222DDDD33331A"), ("genmod5.so", "0123456789ABCDEF0123456789ABCDEF100"), ("genmod6.pdb", "3E7B1C2A1"), ("genmod7.pdb", "5F00D1E2FF")]
+
+
+STALE_INDEX_MODULE = "genmod8.so"
+
+
+def shifted_sym(text, delta=0x10):
+    """the same .sym text with every FUNC / PUBLIC / line / INLINE address lowered by delta, digit for digit as wide as before: an earlier build
+    with an identical byte layout, whose index therefore still parses and points at the right records of the newer file"""
+    out = []
+    for l in text.split("\n"):
+        f = l.split(" ")
+
+        def lower(k):
+            v = int(f[k], 16)
+            if v >= delta:
+                f[k] = ("%x" % (v - delta)).rjust(len(f[k]), "0")
+        try:
+            if f[0] in ("FUNC", "PUBLIC") and len(f) > 3:
+                lower(2 if f[1] == "m" else 1)
+            elif f[0] == "INLINE" and len(f) > 5:
+                for k in range(5, len(f), 2):
+                    lower(k)
+            elif len(f) == 4 and f[0] and all(c in "0123456789abcdef" for c in f[0]):
+                lower(0)
+        except ValueError:
+            pass
+        out.append(" ".join(f))
+    return "\n".join(out)
 
 
 def canon_id(bid):
@@ -96,6 +128,7 @@ class Env:
         shutil.rmtree(self.dir, ignore_errors=True)
         os.makedirs(self.dir)
         self.modules = []          # dicts: debugName, breakpadId, offsets (interesting), kind
+        self.n = 0
         ok, log, bindir = K.cargo_build("h_api")
         if not ok:
             raise K.TieBroken("harness h_api does not build against the current tree:\n" + log[-1500:])
@@ -126,8 +159,21 @@ class Env:
             p = os.path.join(self.dir, name, canon_id(bid), (name[:-4] if name.endswith(".pdb") else name) + ".sym")
             os.makedirs(os.path.dirname(p))
             open(p, "w").write(text)
+            if name == STALE_INDEX_MODULE:
+                # the stored index next to the .sym file (location_for_breakpad_symindex) is the one of the earlier build
+                old_text = shifted_sym(text)
+                assert len(old_text) == len(text)
+                ok2, log2, bindir2 = K.cargo_build("h_symbols")
+                if not ok2:
+                    raise K.TieBroken("harness h_symbols does not build against the current tree:\n" + log2[-1500:])
+                tp = self.tmpfile(old_text)
+                rc2, outl2, err2 = K.run_lines(os.path.join(bindir2, "h_symbols"), ["bp"], ["%s 1 0" % tp])
+                kv = dict(x.split("=", 1) for x in (outl2[0].split(" | ")[0].split() if outl2 else []) if "=" in x)
+                if rc2 != 0 or kv.get("IDX", "ERR") == "ERR":
+                    raise K.TieBroken("could not make the stale index for %s: %s" % (name, (outl2 or [err2])[0][:200]))
+                open(p[:-4] + ".symindex", "wb").write(bytes.fromhex(kv["IDX"]))
+                offsets = sorted(set(offsets + [o - 0x10 for o in offsets if o >= 0x10] + [o - 1 for o in offsets if o >= 1]))
             self.modules.append({"debugName": name, "breakpadId": bid, "offsets": offsets, "kind": "generated"})
-        self.n = 0
         # every generated module must actually load through the symbol manager (a module that silently fails to load would only thin the run out)
         import json as _json
         probe = ["%s %s %s %d %s" % (self.dir, m["debugName"], m["breakpadId"], m["offsets"][1], self.tmpfile("")) for m in self.modules if m["kind"] == "generated"]
